@@ -659,3 +659,79 @@ pub fn cram_container(len: usize, container: &noodles_cram::io::reader::Containe
 pub fn index_element<I: std::fmt::Debug>(index: &I) -> String {
     format!("I:{index:?}")
 }
+
+/// Elements of one lazily read GFF3 line: `R:directive:…`, `R:comment:…` or `R:record:<line>\u{1f}<raw line>`
+/// (+ the deep elements of a record).
+pub fn gff_line(line: &gff::Line, deep: bool, out: &mut Vec<String>) {
+    let raw: &BStr = line.as_ref();
+    match line.kind() {
+        gff::line::Kind::Directive => {
+            let d = line.as_directive();
+            out.push(format!("R:directive:{}\u{1f}{:?}", esc(raw), d.map(|d| (esc(d.key()), d.value().map(|v| esc(v))))));
+        }
+        gff::line::Kind::Comment => {
+            out.push(format!("R:comment:{}\u{1f}{:?}", esc(raw), line.as_comment().map(|c| esc(c))));
+        }
+        gff::line::Kind::Record => match line.as_record() {
+            Some(Ok(rec)) => {
+                out.push(format!("R:record:{}\u{1f}{}", gff_feature(&rec), esc(raw)));
+                if deep {
+                    let mut d = Deep::default();
+                    deep_feature(&mut d, &rec);
+                    let _ = write!(d.digest, "dbg={rec:?};");
+                    d.finish(out);
+                }
+            }
+            Some(Err(e)) => out.push(format!("R:record:{}\u{1f}{}", err_str(&e), esc(raw))),
+            None => out.push(format!("R:record:<none>\u{1f}{}", esc(raw))),
+        },
+    }
+}
+
+pub fn gff_line_buf(line: &gff::LineBuf) -> String {
+    let mut w = gff::io::Writer::new(Vec::new());
+    let s = match w.write_line(line) {
+        Ok(()) => text(w.into_inner()),
+        Err(e) => err_str(&e),
+    };
+    let k = match line {
+        gff::LineBuf::Directive(_) => "directive",
+        gff::LineBuf::Comment(_) => "comment",
+        gff::LineBuf::Record(_) => "record",
+    };
+    format!("R:{k}:{s}\u{1f}{line:?}")
+}
+
+pub fn gtf_line(line: &noodles_gtf::Line, deep: bool, out: &mut Vec<String>) {
+    let raw: &BStr = line.as_ref();
+    if let Some(c) = line.as_comment() {
+        out.push(format!("R:comment:{}\u{1f}{}", esc(raw), esc(c)));
+    } else {
+        match line.as_record() {
+            Some(Ok(rec)) => {
+                out.push(format!("R:record:{}\u{1f}{}", gtf_feature(&rec), esc(raw)));
+                if deep {
+                    let mut d = Deep::default();
+                    deep_feature(&mut d, &rec);
+                    let _ = write!(d.digest, "dbg={rec:?};");
+                    d.finish(out);
+                }
+            }
+            Some(Err(e)) => out.push(format!("R:record:{}\u{1f}{}", err_str(&e), esc(raw))),
+            None => out.push(format!("R:record:<none>\u{1f}{}", esc(raw))),
+        }
+    }
+}
+
+pub fn gtf_line_buf(line: &noodles_gtf::LineBuf) -> String {
+    let mut w = noodles_gtf::io::Writer::new(Vec::new());
+    let s = match w.write_line(line) {
+        Ok(()) => text(w.into_inner()),
+        Err(e) => err_str(&e),
+    };
+    let k = match line {
+        noodles_gtf::LineBuf::Comment(_) => "comment",
+        noodles_gtf::LineBuf::Record(_) => "record",
+    };
+    format!("R:{k}:{s}\u{1f}{line:?}")
+}
